@@ -16,7 +16,7 @@ import (
 //
 // A batch = three shared generated contracts (entitlement mappings with
 // includes, interfaces with default functions, a big composite, resources,
-// attachment, enum) + 8..64 generated programs importing them (scripts and
+// attachment, enum) + 8..48 generated programs importing them (scripts and
 // transactions: mapped references, interface dispatch, run-time types,
 // resources/attachments/capabilities, programs with checker errors, programs
 // with run-time errors). Each batch runs in a FRESH child process: first
@@ -199,7 +199,7 @@ func fx7StillFails() bool {
 }
 
 func TestC36(t *testing.T) {
-	rec := evid.Start(t, "C36", "batch = 4 shared contracts + 8..64 generated programs importing them; reference = each program ALONE with a fresh program cache in a fresh child process; a second fresh child runs the programs concurrently (2..16 goroutines, shared program cache, random order, GOMAXPROCS {2,4,16}, several rounds) and then twice sequentially over a shared cache (program order, reverse); "+
+	rec := evid.Start(t, "C36", "batch = 4 shared contracts + 8..48 generated programs importing them; reference = each program ALONE with a fresh program cache in a fresh child process; a second fresh child runs the programs concurrently (2..16 goroutines, shared program cache, random order, GOMAXPROCS {2,4,16}, several rounds) and then twice sequentially over a shared cache (program order, reverse); "+
 		"per program every concurrent and every sequential-shared outcome trace must equal the reference and the race detector must stay silent; non-trivial = the program imports a shared contract and ran concurrently with >= 1 other program; distinct by (program source, engine, goroutines, GOMAXPROCS)")
 
 	report := func(bc BatchCase, br *execgen.BatchResult, out string, err error) {
@@ -264,7 +264,7 @@ func TestC36(t *testing.T) {
 	}
 
 	rnd := evid.Rand(36)
-	nBatches := evid.N(20, 400)
+	nBatches := evid.N(10, 96)
 	type jobT struct {
 		bc BatchCase
 	}
@@ -272,18 +272,18 @@ func TestC36(t *testing.T) {
 	for b := 0; b < nBatches; b++ {
 		if b%evid.Shards() != evid.Shard() {
 			// keep the random stream aligned across shards
-			_ = execgen.GenBatch(rnd, 8+rnd.Intn(57))
+			_ = execgen.GenBatch(rnd, 8+rnd.Intn(41))
 			rnd.Intn(15)
 			rnd.Intn(3)
 			rnd.Int63()
 			continue
 		}
-		batch := execgen.GenBatch(rnd, 8+rnd.Intn(57))
+		batch := execgen.GenBatch(rnd, 8+rnd.Intn(41))
 		g := 2 + rnd.Intn(15)
 		gmp := []int{2, 4, 16}[rnd.Intn(3)]
 		seed := rnd.Int63()
 		eng := host.Engines[b%len(host.Engines)]
-		jobs = append(jobs, jobT{BatchCase{Job: execgen.BatchJob{Batch: batch, Engine: int(eng), Goroutines: g, Seed: seed, Repeat: evid.N(3, 6),
+		jobs = append(jobs, jobT{BatchCase{Job: execgen.BatchJob{Batch: batch, Engine: int(eng), Goroutines: g, Seed: seed, Repeat: evid.N(3, 4),
 			Warm: fx7 && eng != host.Interp}, GoMaxProcs: gmp, SkipFX8: fx8}})
 	}
 	type outT struct {
